@@ -50,7 +50,9 @@ Ltac rew_pcs :=
       match l with
       | cp _ _ => idtac | lp _ _ => idtac | hc _ _ => idtac | pp _ _ => idtac | mp _ _ => idtac
       | closedLock _ => idtac | runningLock _ => idtac | w1 _ => idtac | w2 _ => idtac | run _ => idtac
-      | close_res _ => idtac
+      | close_res _ => idtac | fix5 _ => idtac | fix6 _ => idtac | fix12 _ => idtac
+      | closed _ => idtac | closingCh _ => idtac | closedCh _ => idtac | ctx_done _ => idtac | early_cancel _ => idtac
+      | out_closed _ _ => idtac | sub_open _ _ => idtac | hstop _ _ => idtac | sub_closing _ _ => idtac
       end;
       progress (rewrite H in * )
   end.
@@ -60,6 +62,17 @@ Ltac injs := repeat match goal with
   end.
 Ltac fin := try solve [simpl in *; intuition (congruence || lia || discriminate)].
 Ltac fin2 := try solve [injs; rew_pcs; simpl in *; injs; intuition (congruence || lia || discriminate)].
+
+(* forward chaining: discharge premises that are trivially true, then normalise again *)
+Ltac fwd :=
+  repeat match goal with
+  | H : ?A -> ?B |- _ =>
+      let HA := fresh in
+      assert (HA : A) by (simpl; first [reflexivity | assumption | congruence | lia]);
+      specialize (H HA); clear HA
+  end.
+Ltac fin3 := try solve [injs; rew_pcs; simpl in *; fwd; injs; rew_pcs; simpl in *; fwd;
+                        intuition (congruence || lia || discriminate)].
 
 (** ** InvC: the closer protocol *)
 Definition holds (p : cpc) : bool :=
@@ -99,6 +112,7 @@ Proof.
   all: try (destruct (closedLock s) eqn:?; fin; upd_all; inst_all; fin).
   all: fin2.
   all: try (destruct (close_res s) as [[|]|] eqn:?; fin2).
+  all: fin3.
 Qed.
 
 (** ** InvA: counters, locks, locations *)
